@@ -136,7 +136,7 @@ func runProperty(w *World, prop string, cfg RunConfig, only string) *checkOutcom
 					vac = append(vac, o)
 					continue
 				}
-				if hasTag(o.Tags, prop) {
+				if hasTag(o.Tags, prop) || (hasTag(o.Tags, supportTag) && specMentionsTag(fi.Spec, prop)) {
 					counts[o] = r.Axioms
 					sel = append(sel, o)
 					tagged++
